@@ -44,9 +44,11 @@ namespace cnl {
         template<>
         struct overflow_polarity<add_op> {
             template<typename Lhs, typename Rhs>
-            [[nodiscard]] constexpr auto operator()(Lhs const&, Rhs const& rhs) const
+            [[nodiscard]] constexpr auto operator()(Lhs const& lhs, Rhs const& rhs) const
             {
-                return measure_polarity(rhs);
+                // a sum exceeds the range only if both operands are positive; any other
+                // overflowing sum (e.g. a negative plus an unsigned operand) falls below it
+                return (lhs > Lhs{} && rhs > Rhs{}) ? polarity::positive : polarity::negative;
             }
         };
 
@@ -55,7 +57,10 @@ namespace cnl {
             template<typename Lhs, typename Rhs>
             [[nodiscard]] constexpr auto operator()(Lhs const&, Rhs const& rhs) const
             {
-                return -measure_polarity(rhs);
+                // a difference exceeds the range only if the subtrahend is negative; any other
+                // overflowing difference (including lhs - 0 for negative lhs and unsigned result)
+                // falls below it
+                return (rhs < Rhs{}) ? polarity::positive : polarity::negative;
             }
         };
 
